@@ -239,8 +239,17 @@ def fresh_report(site_id, P=0, in_progress=False, travel=0, today=0):
     return r
 
 
+def _exact(x):
+    """ints stay ints; exact Fractions (fractional-daylight cases) are kept; integral floats -> int"""
+    from fractions import Fraction
+
+    if isinstance(x, Fraction):
+        return int(x) if x.denominator == 1 else x
+    return int(x)
+
+
 def report_tuple(r):
-    return (int(r.time_surveyed), int(r.time_surveyed_current_day), int(r.time_spent_to_travel),
+    return (_exact(r.time_surveyed), _exact(r.time_surveyed_current_day), _exact(r.time_spent_to_travel),
             int(bool(r.survey_complete)), int(bool(r.survey_in_progress)))
 
 
@@ -360,9 +369,11 @@ def hours_for(budget):
     return Fraction(budget, 60)
 
 
-def impl_day(case, cost_kw=None):
+def impl_day(case, cost_kw=None, daylight=None):
     """real deploy_crews on a real Workplan of real SurveyPlanners; returns stats, reports, crews
-    and the per-visit trace observed by a wrapper around survey_site"""
+    and the per-visit trace observed by a wrapper around survey_site.  daylight = (workday hours,
+    daylight hours): the method is daylight sensitive and gets its minutes from the real
+    get_daylight_hours (hours may be exact Fractions: fractional minutes end to end)"""
     (cls, stationary, cost_type, unit_cost, budget, crews, consider_weather, reqs) = case[:8]
     reqs = [req_fields(q) for q in reqs]
     upfront = case[8] if len(case) > 8 else 0
@@ -376,6 +387,11 @@ def impl_day(case, cost_kw=None):
         if P or ip or trav or td:
             pl._active_survey_report = fresh_report(s.get_id(), P, ip, trav, today=td)
         planners.append(pl)
+    if daylight is not None:
+        m._daylight_sensitive = True
+        m._max_work_hours = daylight[0]
+        assert 60 * min(daylight[0], daylight[1]) == budget
+        return run_day(m, sites, planners, reqs, DATE0, daylight_hours=daylight[1])
     return run_day(m, sites, planners, reqs, DATE0)
 
 
@@ -405,7 +421,7 @@ def build_method(cls, stationary, cost_type, unit_cost, budget, crews, consider_
     return m
 
 
-def run_day(m, sites, planners, reqs, day):
+def run_day(m, sites, planners, reqs, day, daylight_hours=24):
     """one real deploy_crews call for the given planners (in this order), with a wrapper around
     survey_site that scripts the sampled travel time and records every visit.  `sites`, `planners`
     and `reqs` are parallel; planners may carry reports from earlier days"""
@@ -432,7 +448,7 @@ def run_day(m, sites, planners, reqs, day):
         s._lat, s._lon = 0, j
     wp = Workplan(planners, day)
     weather = StubWeather([q[7] for q in reqs], day.timetuple().tm_yday - 1)
-    stats = m.deploy_crews(wp, weather, StubDaylight(24))
+    stats = m.deploy_crews(wp, weather, StubDaylight(daylight_hours))
     reports, wp_planners = wp.get_reports()
     r = DayResult()
     r.method = m
@@ -517,12 +533,14 @@ def day_line(case):
 
 def _num(x):
     """costs / minutes are exact integers on the grids used; refuse anything else"""
-    assert float(x) == int(x), x
+    assert x == int(x), x
     return int(x)
 
 
-def impl_day_reply(case, r):
-    """same layout as the driver's reply to `day`"""
+def impl_day_reply(case, r, scale=1):
+    """same layout as the driver's reply to `day`; `scale` multiplies every time quantity (minutes
+    with a common denominator are compared with the integer model in units of 1/scale minute)"""
+    k = scale
     reqs = case[7]
     by_site = {t["site"]: t for t in r.trace}
     parts = []
@@ -533,14 +551,14 @@ def impl_day_reply(case, r):
         crew = "-" if t is None else str(t["crew"])
         vis = 0 if t is None else int(t["visited"])
         last = 0 if t is None else int(t["last"])
-        tr = 0 if t is None else _num(t["travel"])
-        parts.append("%d:%s:%d:%d:%d:%d:%d:%d:%d:%d" % (sid, crew, rep[0], rep[1], rep[2], rep[3], rep[4],
+        tr = 0 if t is None else _num(t["travel"] * k)
+        parts.append("%d:%s:%d:%d:%d:%d:%d:%d:%d:%d" % (sid, crew, _num(rep[0] * k), _num(rep[1] * k), _num(rep[2] * k), rep[3], rep[4],
                                                     vis, last, tr))
-    crews = ",".join("%d:%d:%d:%d:%d" % ((cid, _num(rem), int(dep)) + crew_ghost(r.trace, cid))
+    crews = ",".join("%d:%d:%d:%d:%d" % ((cid, _num(rem * k), int(dep)) + tuple(_num(x * k) for x in crew_ghost(r.trace, cid)))
                      for (cid, rem, dep) in r.crews)
     return "%d %d %d %d %d | %s | %s" % (
-        _num(r.stats.deployment_cost), r.stats.sites_visited, _num(r.stats.travel_time),
-        _num(r.stats.survey_time), _num(r.wp_travel), ";".join(parts), crews)
+        _num(r.stats.deployment_cost), r.stats.sites_visited, _num(r.stats.travel_time * k),
+        _num(r.stats.survey_time * k), _num(r.wp_travel * k), ";".join(parts), crews)
 
 
 def _completed_now(t):
@@ -555,9 +573,9 @@ def crew_ghost(trace, cid):
     for t in trace:
         if t["crew"] != cid:
             continue
-        spent += _num(t["travel"]) + (t["after"][0] - t["before"][0])
+        spent += t["travel"] + (t["after"][0] - t["before"][0])
         if _completed_now(t) or (t["visited"] and t["after"][0] > t["before"][0]):
-            home = _num(t["travel"])
+            home = t["travel"]
     return spent, home
 
 
